@@ -506,7 +506,7 @@ func c02r4(rc *core.RC) {
 					if !ok || verdict == "ok" {
 						return true
 					}
-					if !storesThrough(info, ifs.Body, sl.ep) && !storesThroughAddr(info, ifs.Body, sl.ep) {
+					if !storesThrough(info, ifs.Body, sl.ep) && !storesThroughAddr(info, ifs.Body, sl.ep) && !definitelyStores(rc, info, ifs.Body, sl.ep, 0) {
 						return true
 					}
 					gb, _ := cf.BlockOf(ifs.Cond)
@@ -531,24 +531,8 @@ func c02r4(rc *core.RC) {
 						verdict, why = "bad", fmt.Sprintf("the slot is cleared under `%s`, which is not equivalent to `%s <= %s`: a slot at or past the caller's length that the guard skips still holds what an earlier call left in the pooled array", core.Src(p.Fset, ifs.Cond), srcLen.Name(), sl.idx.Name())
 						return true
 					}
-					// every path through the body stores
-					var definitely func(st ast.Stmt) bool
-					definitely = func(st ast.Stmt) bool {
-						switch x := st.(type) {
-						case *ast.BlockStmt:
-							for _, y := range x.List {
-								if definitely(y) {
-									return true
-								}
-							}
-							return false
-						case *ast.IfStmt:
-							return x.Else != nil && definitely(x.Body) && definitely(x.Else)
-						case *ast.ForStmt, *ast.RangeStmt, *ast.SwitchStmt:
-							return false
-						}
-						return storesThrough(info, st, sl.ep) || storesThroughAddr(info, st, sl.ep)
-					}
+					// every path through the body stores (a helper that receives the slot is followed)
+					definitely := func(st ast.Stmt) bool { return definitelyStores(rc, info, st, sl.ep, 0) }
 					all := definitely(ifs.Body)
 					if all {
 						verdict = "ok"
@@ -681,4 +665,48 @@ func c04r4(rc *core.RC) {
 	if n < 6 {
 		rc.Unknown("decoder/token-nil-tests", token.NoPos, "found %d early returns on a scanned token", n)
 	}
+}
+
+// definitelyStores: every path through st stores through the pointer variable dst; a call that
+// passes dst to a module function is followed into that function (two levels).
+func definitelyStores(rc *core.RC, info *types.Info, st ast.Stmt, dst types.Object, depth int) bool {
+	switch x := st.(type) {
+	case *ast.BlockStmt:
+		for _, y := range x.List {
+			if definitelyStores(rc, info, y, dst, depth) {
+				return true
+			}
+		}
+		return false
+	case *ast.IfStmt:
+		return x.Else != nil && definitelyStores(rc, info, x.Body, dst, depth) && definitelyStores(rc, info, x.Else, dst, depth)
+	case *ast.ForStmt, *ast.RangeStmt, *ast.SwitchStmt:
+		return false
+	case *ast.ExprStmt:
+		call, ok := x.X.(*ast.CallExpr)
+		if !ok || depth >= 2 {
+			break
+		}
+		callee := core.Callee(info, call)
+		if callee == nil || callee.Pkg() == nil || !strings.HasPrefix(callee.Pkg().Path(), core.ModPath) {
+			break
+		}
+		cd := rc.P.DeclOf(callee)
+		if cd == nil || cd.Body == nil {
+			break
+		}
+		cinfo := rc.P.Info(cd)
+		k := 0
+		for _, f := range cd.Type.Params.List {
+			for _, nm := range f.Names {
+				if k < len(call.Args) && core.ObjOf(info, call.Args[k]) == dst {
+					if definitelyStores(rc, cinfo, cd.Body, cinfo.Defs[nm], depth+1) {
+						return true
+					}
+				}
+				k++
+			}
+		}
+	}
+	return storesThrough(info, st, dst) || storesThroughAddr(info, st, dst)
 }
